@@ -2,6 +2,7 @@ import Casket.Proofs.Dispenser
 import Casket.Model.ExecSetup
 import Casket.Proofs.ExecSetup
 import Casket.Generated.SetupBounds
+import Casket.Proofs.HtCacheLock
 /-
 C11 — Every directive's setup is total: error or success, never a crash.   (partial, see docs/C11.md)
 
@@ -13,7 +14,12 @@ What is PROVED here, for all token lists and all call sequences:
   * every constant index `x[k]` / `x[k:]` in the 33 anchored setup files is in range under the
     conditions the enclosing code has established (one regenerated obligation per site);
   * `-validate` and a start run the same setup calls in the same order (model of executeDirectives).
-What is only SEARCHED (stream c11.setup, real code, recover + watchdog): everything else a setup body does.
+  * the process-wide htpasswd cache of basicauth, which carries state from one load to the next behind a mutex:
+    every call of `GetHtpasswdMatcher` returns with the mutex free, so no history of loads and file changes ever
+    blocks, and a history gets the answers fresh processes would give (model `Casket.HtCacheLock`, tied to the real
+    function by the stream c11.htcache).
+What is only SEARCHED (streams c11.setup and c11.reload, real code in a worker process, recover + watchdog): everything
+else a setup body does.
 -/
 namespace Casket.Props.C11
 open Casket.Lexer Casket.Dispenser Casket.Dispenser.Disp Casket.DispenserSpec Casket.ExecSetup
@@ -178,7 +184,66 @@ theorem C11_exec_model_verdict_ok (fails : Call → Bool) (cbs : List Bytes) (fd
         exact hc (List.contains_iff_mem.mpr hmem))
       exact ⟨e1, e2.symm⟩
 
-/-- the judge of the search stream accepts exactly the outcome the property demands -/
+/-- the judge of the search streams (c11.setup, c11.reload) accepts the outcome the property demands -/
 theorem C11_model_verdict_ok : setupVerdict "total" = "ok" := by decide
+
+/-- … and no other: of the five outcomes an answer is classified as (total, panic — of the setup's goroutine or of the
+whole process —, timeout, disagree, unreadable) only `total` is judged ok -/
+theorem C11_search_verdict_exact (o : Outcome) : verdictOf o = "ok" ↔ o = .total := by
+  cases o <;> decide
+
+/-! ### State carried between loads: the htpasswd cache and its mutex -/
+
+open Casket.HtCacheLock in
+/-- Every call of `GetHtpasswdMatcher` that starts with the mutex free and a coherent cache RETURNS (it does not block),
+answers exactly what a process that never saw the file answers (open error, parse error, unknown user or success),
+leaves the files alone — and hands the mutex back, with the cache coherent: the next call finds what this one found.
+(F6 — an error path that kept the mutex — and the seeded helper that takes it a second time both break `Inv` of the
+state after the call.) -/
+theorem C11_htcache_call_returns_and_releases (f u : Nat) (s : St) (h : Inv s) :
+    (get f u s).1 ≠ .hang ∧ (get f u s).1 = fresh (s.disk f) u ∧ (get f u s).2.disk = s.disk ∧ Inv (get f u s).2 := by
+  obtain ⟨h1, h2, _, h4⟩ := get_spec f u s h
+  exact ⟨h1 ▸ fresh_ne_hang _ _, h1, h2, h4⟩
+
+open Casket.HtCacheLock in
+/-- So no history of loads (calls) and file changes — edits, removals, directories in the file's place, new
+modification times — ever blocks: every call in it returns. -/
+theorem C11_htcache_history_never_blocks (ops : List Casket.HtCacheLock.Op) : Res.hang ∉ run ops init := by
+  rw [run_eq_runFresh ops init inv_init]
+  exact runFresh_no_hang ops init
+
+open Casket.HtCacheLock in
+/-- … and the cache cannot be observed: the history is answered as if every call were made by a fresh process.
+In particular a validation and the start that follows it (same file, same user, file unchanged) end alike. -/
+theorem C11_htcache_not_observable (ops : List Casket.HtCacheLock.Op) : run ops init = runFresh ops init :=
+  run_eq_runFresh ops init inv_init
+
+open Casket.HtCacheLock in
+/-- the judge of the stream c11.htcache accepts the model's answers for every history -/
+theorem C11_htcache_model_verdict_ok (ops : List Casket.HtCacheLock.Op) : verdict ops (run ops init) = "ok" := by
+  unfold verdict
+  have h1 : (run ops init).contains Res.hang = false := by
+    apply Bool.eq_false_iff.mpr
+    intro h
+    exact C11_htcache_history_never_blocks ops (List.contains_iff_mem.mp h)
+  have h2 : agrees ops (run ops init) [] = true := by
+    rw [run_eq_runFresh ops init inv_init]
+    exact agrees_runFresh ops init [] (fun _ _ _ h => by cases h)
+  rw [if_neg (by rw [h1]; exact Bool.false_ne_true), if_pos h2]
+
+open Casket.HtCacheLock in
+/-- what the invariant rules out: once the mutex is held when a call begins, that call and every later one block -/
+theorem C11_htcache_held_mutex_blocks (f u : Nat) (s : St) (h : s.locked = true) :
+    (get f u s).1 = .hang ∧ (get f u s).2.locked = true := by
+  unfold Casket.HtCacheLock.get
+  simp [h]
+
+open Casket.HtCacheLock in
+/-- non-vacuity: users {1} written, user 1 found, file edited to users {1, 2}, user 2 found on the next load (the stale
+table is dropped), file removed: open error; a directory in its place: parse error; malformed: parse error -/
+example :
+    run [.write 0 (.users [1]), .get 0 1, .get 0 2, .write 0 (.users [1, 2]), .get 0 2, .remove 0, .get 0 1,
+         .mkdir 0, .get 0 1, .write 0 .malformed, .get 0 1, .write 0 (.users [1]), .touch 0, .get 0 1] init
+      = [.ok, .enouser, .ok, .eopen, .eparse, .eparse, .ok] := by decide
 
 end Casket.Props.C11
